@@ -259,6 +259,9 @@ class CSSPageRule(cssrule.CSSRuleRules):
                 # MarginRule
                 m = MarginRule(parentRule=self, parentStyleSheet=self.parentStyleSheet)
                 m.cssText = chain([token], g)
+                if not m.margin:
+                    # malformed, ignored
+                    continue
 
                 # merge if margin set more than once
                 for r in cssRules:
